@@ -420,6 +420,15 @@ func runPlan(cs Case, c *vrt.Ctx) {
 	if p == nil {
 		return
 	}
+	if cyclicThenDeep(arr) {
+		// the recorded finding C20-K3: a plan can store the root (or a part of it) inside itself and
+		// then hand the cyclic value to string / equal / include, which recurse until the stack
+		// overflows - fatal for the process, nothing recovers it. C20 decides which plans do that
+		// exactly (stepwise, on fresh roots); here every plan that both stores a value read from a
+		// path and calls one of those functions is counted and not executed.
+		c.Class("not-executed(may store the root in itself and print it: C20-K3)")
+		return
+	}
 	root := map[string]any{"src": map[string]any{"a": int64(1), "b": []any{int64(1), int64(2), "x"}, "c": map[string]any{"d": "str"}, "s": "hello", "f": 2.5, "n": nil, "t": true}}
 	acc := callErr(c, "asm.Plan.Execute", in, func() error { return p.Execute(root) })
 	callMust(c, "asm.Plan.String", in, func() { _ = p.String() })
@@ -428,6 +437,48 @@ func runPlan(cs Case, c *vrt.Ctx) {
 	}
 	c.NonTrivial()
 	c.Sample(map[string]any{"target": "plan", "plan": cs.Tree})
+}
+
+// cyclicThenDeep: the plan has a set / setall / append-like store of a value that is read from a path
+// (or is a call) and somewhere a function that walks a whole value.
+func cyclicThenDeep(plan any) bool {
+	stores, deep := false, false
+	var walk func(v any)
+	walk = func(v any) {
+		list, ok := v.([]any)
+		if !ok {
+			if m, isMap := v.(map[string]any); isMap {
+				for _, e := range m {
+					walk(e)
+				}
+			}
+			return
+		}
+		if len(list) > 0 {
+			if name, _ := list[0].(string); name != "" {
+				switch name {
+				case "string", "equal", "eq", "==", "neq", "!=", "include", "inspect", "sort", "dif", "difference":
+					deep = true
+				case "set", "setall":
+					if len(list) > 2 {
+						switch tv := list[2].(type) {
+						case string:
+							if len(tv) > 0 && (tv[0] == '$' || tv[0] == '@') {
+								stores = true
+							}
+						case []any, map[string]any:
+							stores = true
+						}
+					}
+				}
+			}
+		}
+		for _, e := range list {
+			walk(e)
+		}
+	}
+	walk(plan)
+	return stores && deep
 }
 
 // normNums turns the float64 numbers of a JSON-decoded case back into int64 where integral.
